@@ -39,6 +39,9 @@ var (
 	// Once running elsewhere, WaitGroup not at zero). The controlled scheduler switches to another
 	// thread; without a scheduler the shim yields the processor.
 	BlockHook func()
+	// SyncDepth counts the sync protections the running code is inside (Once.Do bodies, held write
+	// locks): a package variable written at depth 0 is unsynchronised shared state.
+	SyncDepth int
 )
 
 // Block is called in wait loops of the sync shims.
@@ -100,6 +103,7 @@ func (m *Mutex) Lock() {
 		verifrt.Block()
 	}
 	m.locked = true
+	verifrt.SyncDepth++
 }
 
 func (m *Mutex) TryLock() bool {
@@ -108,6 +112,7 @@ func (m *Mutex) TryLock() bool {
 		return false
 	}
 	m.locked = true
+	verifrt.SyncDepth++
 	return true
 }
 
@@ -115,7 +120,9 @@ func (m *Mutex) Unlock() {
 	if !m.locked {
 		panic("sync: unlock of unlocked mutex")
 	}
+	verifrt.P(0)
 	m.locked = false
+	verifrt.SyncDepth--
 	verifrt.P(0)
 }
 
@@ -131,13 +138,16 @@ func (m *RWMutex) Lock() {
 		verifrt.Block()
 	}
 	m.writer = true
+	verifrt.SyncDepth++
 }
 
 func (m *RWMutex) Unlock() {
 	if !m.writer {
 		panic("sync: Unlock of unlocked RWMutex")
 	}
+	verifrt.P(0)
 	m.writer = false
+	verifrt.SyncDepth--
 	verifrt.P(0)
 }
 
@@ -182,7 +192,10 @@ func (o *Once) Do(f func()) {
 		return
 	}
 	o.running = true
+	verifrt.SyncDepth++
 	defer func() {
+		verifrt.P(0) // the last statement of f is attributed to the protected region
+		verifrt.SyncDepth--
 		o.done = true
 		o.running = false
 	}()
